@@ -178,7 +178,15 @@ Definition ver_of_db (sid : Z) (d : db) : option Z := option_map s_ver (find_sta
 Inductive variant := Plain | Txn.
 Inductive phase_mode := NoPhase | PhaseSnap | PhaseFixed (p : Z).
 (* p_tries = total number of attempts (retry_on_concurrency_error: max_retries + 1; _update_join_tracking: 5) *)
-Record prog := mk_prog { p_variant : variant; p_phase : phase_mode; p_mod : modn; p_tries : nat }.
+(* p_poison: the in-memory version of the first task is corrupted before the save (a snapshot that did not come from
+   retrieve_stage: current stage version, stale task version).  Only used to exhibit what is NOT guaranteed. *)
+Record prog := mk_prog { p_variant : variant; p_phase : phase_mode; p_mod : modn; p_tries : nat; p_poison : bool }.
+
+Definition corrupt (n : snap) : snap :=
+  match n_tasks n with
+  | t :: r => mk_snap (n_id n) (n_ver n) (n_status n) (n_pay n) (mk_tsnap (ts_id t) (ts_ver t + 5) (ts_status t) :: r)
+  | [] => n
+  end.
 
 Inductive pc := AtS | AtT | AtU | AtC | AtE | Done.
 Definition pc_eqb (a b : pc) : bool :=
@@ -242,7 +250,7 @@ Definition step_U (x : shapes) (g : gstate) (i : nat) (p : prog) (w : wstate) : 
   | None => bad g
   | Some n =>
       if negb (lock_free_for g i) then bad g else
-      let n' := apply_mod (p_mod p) n in
+      let n' := if p_poison p then corrupt (apply_mod (p_mod p) n) else apply_mod (p_mod p) n in
       match store_stmts (store_shape_of x (p_variant p)) (x_task x) (my_db g i) n' (phase_of (p_phase p) (n_status n)) with
       | (d', _, Ok) =>
           if commits_of x (p_variant p)
